@@ -54,7 +54,7 @@ Proof. intros H. unfold dget, dset. cbn. rewrite (lookup_update_other nm nm' _ H
 Definition writes (g : agg) : option Z :=
   match g with
   | Tally i | TallyS i => Some (100 + Z.of_nat i) | TallyC _ _ => Some 99 | First nm _ | Every nm _ _ | Subtotal nm _ _ | AssignK nm _ _ => Some nm
-  | Counter _ _ | Sum _ _ => None
+  | Counter _ _ | Sum _ _ | CounterE _ _ => None
   end.
 Definition comp_agg (c : comp) : option agg := match c with CAgg g | CAct (Agg g) | CWhen _ (Agg g) => Some g | _ => None end.
 (** the dictionary [nm] belongs to first(): no other function or assignment of the csvpath writes it *)
@@ -89,7 +89,7 @@ Section Agg.
   Lemma do_agg_keeps_first s l g nm key z : (match g with First _ _ => True | _ => writes g <> Some nm end) ->
     dget (x mx s) nm key = Some (VI z) -> dget (x mx (fst (do_agg blanks AND s l g))) nm key = Some (VI z).
   Proof.
-    intros Hw H. destruct g as [i|nm' i|nm' i n|nm' k|nm' e|nm' i e|nm' key' e|i|i j]; cbn [do_agg writes] in *.
+    intros Hw H. destruct g as [i|nm' i|nm' i n|nm' k|nm' e|nm' i e|nm' key' e|i|i j|nm' e]; cbn [do_agg writes] in *.
     - cbn [fst x with_mx]. rewrite dget_dset_other_dict; [exact H|]. intros E. apply Hw. rewrite E. reflexivity.
     - destruct (Z.eq_dec nm' nm) as [->|Hn].
       + destruct (dget (x mx s) nm (hdr_key l i)) as [[z'|z'|t|]|] eqn:E; cbn [fst x with_mx]; try exact H.
@@ -103,6 +103,7 @@ Section Agg.
     - cbn [fst x with_mx]. rewrite dget_dset_other_dict; [exact H|]. intros E. apply Hw. rewrite E. reflexivity.
     - destruct (is_blank_text (tally_text l i)); cbn [fst x with_mx]; [exact H|]. rewrite dget_dset_other_dict; [exact H|]. intros E. apply Hw. rewrite E. reflexivity.
     - cbn [fst x with_mx]. rewrite dget_dset_other_dict; [exact H|]. intros E. apply Hw. rewrite E. reflexivity.
+    - cbn [fst x with_mx]. exact H.
   Qed.
 
   Lemma eval_keeps_first c s l nm key z : first_owns nm c ->
@@ -174,6 +175,17 @@ Section Steps.
   Theorem counter_step s l nm k :
     let r := do_agg blanks AND s l (Counter nm k) in
     lookup nm (vars (x mx (fst r))) = Some (VI (num_of (lookup nm (vars (x mx s))) + k)) /\
+    (forall v, nm <> v -> lookup v (vars (x mx (fst r))) = lookup v (vars (x mx s))) /\
+    dicts (x mx (fst r)) = dicts (x mx s) /\ stacks (x mx (fst r)) = stacks (x mx s).
+  Proof.
+    cbn zeta. cbn [do_agg fst snd x with_mx vars dicts stacks]. repeat split; [apply lookup_update_same|].
+    intros v Hv. apply lookup_update_other. exact Hv.
+  Qed.
+
+  (* counter with an expression argument: the increment is this line's value of the expression, not the first line's *)
+  Theorem counter_expr_step s l nm e :
+    let r := do_agg blanks AND s l (CounterE nm e) in
+    lookup nm (vars (x mx (fst r))) = Some (VI (num_of (lookup nm (vars (x mx s))) + fst (neval blanks s l e))) /\
     (forall v, nm <> v -> lookup v (vars (x mx (fst r))) = lookup v (vars (x mx s))) /\
     dicts (x mx (fst r)) = dicts (x mx s) /\ stacks (x mx (fst r)) = stacks (x mx s).
   Proof.
